@@ -38,12 +38,12 @@ CHECKS = {
             "Trusts the literal MIDI 1.0 tables in refmodel.rs.",
             "DESIGN.md 4/C06"),
     "C07": (True,
-            "exhaustive enumeration of all 8388608 messages (encode into 4 implementations, decode from a fresh scanner), decoding after prior state (quick: 4 seed-chosen of 4097 states per message; thorough: all 4097 states x all messages of a channel = 2.1e9), proptest random 16-channel prefix histories; round-trip oracle",
+            "exhaustive enumeration of all 8388608 messages (encode into 4 implementations, decode from a fresh scanner), decoding after prior state with 7 follow-up variants (quick: 4 seed-chosen of 4097 states per message; thorough: all 4097 states x all messages of a channel = 2.1e9), proptest random 16-channel prefix histories; round-trip oracle; second configuration (serde): creation by deserialization accepted exactly for MSB controllers 0-31",
             "Exhaustive for encoding and decode-from-fresh; decode-from-any-reachable-single-channel-state exhaustive in the thorough tier, sampled in quick; multi-channel prefixes sampled.",
             "Reachable per-channel states are the 4097 found by the C08 fixpoint.",
             "DESIGN.md 4/C07"),
     "C08": (True,
-            "bounded-exhaustive sequence generation (BFS over operation sequences with (scanner Debug, reference state) pruning to a fixpoint: covers histories of every length) + proptest random histories over the full 16-channel alphabet with shrinking; oracle = reference scanner written from the property statement",
+            "bounded-exhaustive sequence generation (BFS over operation sequences with (scanner Debug, reference state) pruning to a fixpoint: covers histories of every length) + repetition probes (every operation repeated 255-257 / 65535-65537 times from every fixpoint state, against wrapping counters) + proptest random histories over the full 16-channel alphabet with shrinking and value coupling; oracle = reference scanner written from the property statement",
             "Fixpoint over the complete single-channel contributing alphabet in the thorough tier (4097 states x 8197 inputs), value-abstracted in quick; full-alphabet multi-channel histories sampled.",
             "Pruning trusts that derived Debug prints the scanner's whole state.",
             "DESIGN.md 4/C08"),
@@ -53,12 +53,12 @@ CHECKS = {
             "Controller assignment literals as stated in the property.",
             "DESIGN.md 4/C09"),
     "C10": (True,
-            "seeded generation over the (N)RPN message space x constructed prior scanner states and proptest random prior histories; running forms of k items; round-trip oracle (encoder output must decode to the original on its last message)",
+            "seeded generation over the (N)RPN message space x constructed prior scanner states, every state of the abstract fixpoint x a message grid, long repetitions (250-260 / 65530-65540) before the message, proptest random prior histories; running forms of k items; round-trip oracle on both the reference encoding and the output of the crate's own encoder",
             "Sampled: 400k messages x prior states (quick), 10M (thorough); 30k random histories; 30k running forms.",
             "Only the documented sequence forms are generated (LSB-first 14-bit, homogeneous running forms).",
             "DESIGN.md 4/C10"),
     "C11": (True,
-            "bounded-exhaustive sequence generation (BFS to a fixpoint on one and two channels over a value-abstracted alphabet) + proptest random histories over the full alphabet; oracle = reference scanner of history facts from the property statement",
+            "bounded-exhaustive sequence generation (BFS to a fixpoint on one and two channels over a value-abstracted alphabet incl. every non-(N)RPN controller) + repetition probes + every constructed per-channel state x every next input (thorough: all 129^3 x 8 states x 778 inputs = 6.9e9) + proptest random histories over the full alphabet; oracle = reference scanner of history facts from the property statement",
             "Fixpoint covers histories of every length over the abstract alphabet (128 states per channel, 16384 for two channels); full alphabet sampled.",
             "Pruning trusts derived Debug; abstraction collapses values to {0,1,127}.",
             "DESIGN.md 4/C11"),
